@@ -1222,7 +1222,7 @@ impl Prop for C19 {
     }
 
     fn rule(&self) -> &'static str {
-        "grid {direction: cdr-list, car-list, vector, quote-chain, closure-chain, continuation-chain, nontail, expr-call, expr-let} x {operation: read, quote, build, gc, equal?, write, drop, eval — 45 cells that make sense} x depth {10^3, 10^4, 10^5} x {main thread with an 8 MiB stack, thread with a 2 MiB stack} x profile {checked; plain in the thorough tier}, plus mixed-direction data shapes (direction per level from a choice sequence: 1..12 runs of cdr/car/vector/quote of length 1..1000, repeated; depth log-uniform in 10^3..10^5; operation and thread from the same bytes). Every scenario = one child process; an evaluation = one child run. Non-trivial: depth >= 10^4; distinct by (cell, depth, thread, profile, shape bytes)."
+        "grid {direction: cdr-list, car-list, vector, quote-chain, closure-chain, continuation-chain, nontail, expr-call, expr-let} x {operation: read, quote, build, gc, equal?, write, drop, eval - the 45 cells that make sense; write of data runs as two children: value of an evaluation + its formatting, and the printer alone on a datum built by the harness} x depth {10^3, 10^4, 10^5} x {main thread with an 8 MiB stack, thread with a 2 MiB stack} x profile {checked; plain in the thorough tier}, plus mixed-direction data shapes (direction per level from a choice sequence: 1..12 runs of cdr/car/vector/quote of length 1..1000, repeated; depth log-uniform in 10^3..10^5; operation and thread from the same bytes; 48 per seed quick, 2000 thorough). Every scenario = one child process; an evaluation = one child run. Non-trivial: depth >= 10^4; distinct by (cell, variant, depth, thread, profile, shape bytes)."
     }
 
     fn assumptions(&self) -> Vec<&'static str> {
@@ -1291,7 +1291,9 @@ impl Prop for C19 {
                 }
             }
         }
-        ctx.extra("cells", json!(cells().len()));
+        if ctx.shard == 0 {
+            ctx.extra("cells", json!(cells().len()));
+        }
     }
 
     fn replay(&self, ctx: &Ctx, _kind: &str, payload: &Value) -> Outcome {
